@@ -20,7 +20,10 @@ def hUrlSplit : Handler := fun impl => do
     let starred := match impl with
       | _ :: _ :: a :: _ => a.startsWith "x2a40"
       | _ => false
-    let auth := if starred then b!"*@" ++ Go.UrlEsc.hostOfAuthority auth0 else auth0
+    let hostStar := match impl with
+      | _ :: _ :: a :: _ => a == "x2a"
+      | _ => false
+    let auth := if hostStar then b!"*" else if starred then b!"*@" ++ Go.UrlEsc.hostOfAuthority auth0 else auth0
     let label := if u.authority.isSome then (if u.rawQuery ≠ [] then "authority+query" else "authority")
                  else if u.opaq ≠ [] then "opaque" else "path-only"
     return { model := s!"ok {toHex u.scheme} {toHex auth} {toHex u.rawQuery} {if u.forceQuery then 1 else 0} {toHex u.opaq}",
